@@ -19,7 +19,7 @@ EXC_CLASSES = {
     "BaseExceptionGroup": 10, "TypeError": 11, "KeyError": 12, "ValueError": 13,
 }
 CMP = {ast.Eq: 0, ast.NotEq: 1, ast.Lt: 2, ast.LtE: 3, ast.Gt: 4, ast.GtE: 5}
-B = dict(get=16, len=0, append=1, appendleft=2, extend=3, popleft=4, head=5, contains=6, getitem=7, setitem=8, isinstance=9,
+B = dict(anyinst=17, add=18, isnumber=19, get=16, len=0, append=1, appendleft=2, extend=3, popleft=4, head=5, contains=6, getitem=7, setitem=8, isinstance=9,
          newexc=10, index1=11, values=12, concat=13, dictoftypes=14, type=15)
 
 
@@ -48,6 +48,8 @@ class Target:
     await_ext: int | None = None        # `await <expr>` of something that is not itself an external call -> this external, [expr]
     callables: dict[str, int] = field(default_factory=dict)     # parameter / local that is called: name -> external, args [callee, *args]
     self_names: tuple[str, ...] = ("self", "cls")
+    closure: list[str] = field(default_factory=list)   # free variables of a nested function (the enclosing function's parameters), numbered first
+    part: str | None = None             # "loop_body": the function must be `<name> = <int>; while True: <body>` – translate <body> only
 
 
 class _Renamed(dict):
@@ -73,7 +75,7 @@ class _Renamed(dict):
 class Tr:
     def __init__(self, t: Target, cls_node: ast.ClassDef | None, fn: ast.FunctionDef | ast.AsyncFunctionDef):
         self.t, self.cls_node, self.fn = t, cls_node, fn
-        self.locals: dict[str, int] = {p: i for i, p in enumerate(t.params)}
+        self.locals: dict[str, int] = {p: i for i, p in enumerate(list(t.closure) + list(t.params))}
         self.tmp = 0
         self.alias: dict[str, str] = {}    # local name -> receiver text it was last assigned from (`w = self._waiting`)
         self.recv_texts = {r for (r, _m) in t.externals}
@@ -239,6 +241,16 @@ class Tr:
 
     def args_of(self, n: ast.Call, spec: list[str]) -> tuple[list[str], list[str]]:
         pres, out = [], []
+        if spec == ["*"]:
+            if any(isinstance(a, ast.Starred) for a in n.args) or any(k.arg is None for k in n.keywords):
+                raise Unrecognised(f"call {self.src(n)}: starred arguments")
+            for node in list(n.args) + [k.value for k in n.keywords]:
+                p, e = self.expr(node)
+                if p and out:
+                    raise Unrecognised("effectful argument")
+                pres += p
+                out.append(e)
+            return pres, out
         for a in spec:
             if a.startswith("$"):
                 node = ast.parse(a[1:], mode="eval").body
@@ -285,6 +297,20 @@ class Tr:
                 p, e = self.expr(n.args[0])
                 p2, c = self.expr(n.args[1])
                 return p + p2, f"(Expr.call {B['isinstance']} {self.lst([e, c])})"
+            if f.id == "any" and len(n.args) == 1 and not n.keywords and isinstance(n.args[0], ast.GeneratorExp):
+                g = n.args[0]
+                if len(g.generators) == 1 and not g.generators[0].ifs and not g.generators[0].is_async \
+                        and isinstance(g.generators[0].target, ast.Name) and isinstance(g.elt, ast.Call) \
+                        and isinstance(g.elt.func, ast.Name) and g.elt.func.id == "isinstance" and len(g.elt.args) == 2 \
+                        and not g.elt.keywords and isinstance(g.elt.args[1], ast.Name) \
+                        and g.elt.args[1].id == g.generators[0].target.id \
+                        and g.generators[0].target.id not in {x.id for x in ast.walk(g.elt.args[0]) if isinstance(x, ast.Name)}:
+                    p, e = self.expr(g.elt.args[0])
+                    p2, ys = self.expr(g.generators[0].iter)
+                    if p or p2:
+                        raise Unrecognised("effectful generator expression")
+                    return [], f"(Expr.call {B['anyinst']} {self.lst([e, ys])})"
+                raise Unrecognised("any(...) of another shape")
             if f.id == "type" and len(n.args) == 1:
                 p, e = self.expr(n.args[0])
                 return p, f"(Expr.call {B['type']} {self.lst([e])})"
@@ -502,6 +528,22 @@ class Tr:
         if isinstance(s, ast.If):
             p, c = self.expr(s.test)
             return self.seq(p + [f"(Stmt.ite {c} {self.stmts(s.body)} {self.stmts(s.orelse)})"])
+        if isinstance(s, ast.While):
+            if not (isinstance(s.test, ast.Constant) and s.test.value is True) or s.orelse:
+                raise Unrecognised("while loop other than `while True:`")
+            return f"(Stmt.loop fuel {self.stmts(s.body)})"
+        if isinstance(s, ast.Continue):
+            return "Stmt.cont"
+        if isinstance(s, ast.Break):
+            return "Stmt.brk"
+        if isinstance(s, ast.AugAssign):
+            if not (isinstance(s.op, ast.Add) and isinstance(s.target, ast.Name) and s.target.id in self.locals):
+                raise Unrecognised(f"augmented assignment {self.src(s)}")
+            p, e = self.expr(s.value)
+            return self.seq(p + [f"(Stmt.assign {self.locals[s.target.id]} (Expr.call {B['add']} "
+                                 f"{self.lst([f'(Expr.loc {self.locals[s.target.id]})', e])}))"])
+        if isinstance(s, ast.Match):
+            return self.match(s)
         if isinstance(s, ast.Try):
             hs = "Stmt.noHandler"
             for h in reversed(s.handlers):
@@ -524,6 +566,51 @@ class Tr:
         raise Unrecognised(type(s).__name__)
 
 
+NUMBER_CLASSES = {"int", "float"}
+
+
+def _match(self, s: ast.Match) -> str:
+    """`match <subject>: case …` as a chain of tests on the subject's value, first matching case wins; patterns of the
+    subset: `None`, class patterns without arguments over int/float (alone or in an or-pattern) with an optional `as`
+    binding, a capture name, the wildcard"""
+    p, e = self.expr(s.subject)
+    subj = self.fresh()
+    out = "Stmt.pass"      # no case matched: the statement does nothing
+    for case in reversed(s.cases):
+        if case.guard is not None:
+            raise Unrecognised("guarded case")
+        pat = case.pattern
+        bind = None
+        if isinstance(pat, ast.MatchAs) and pat.pattern is not None:
+            bind, pat = pat.name, pat.pattern
+        for name in (bind, pat.name if isinstance(pat, ast.MatchAs) else None):
+            if name:
+                self.local(name)      # bound before the case body is translated
+        body = self.stmts(case.body)
+        loc = f"(Expr.loc {subj})"
+        if isinstance(pat, ast.MatchSingleton) and pat.value is None:
+            test = f"(Expr.is_ {loc} (Expr.lit Val.none))"
+        elif isinstance(pat, ast.MatchAs) and pat.pattern is None:
+            # capture (or `_`): always matches
+            pre = [f"(Stmt.assign {self.local(pat.name)} {loc})"] if pat.name else []
+            out = self.seq(pre + [body])
+            continue
+        else:
+            alts = pat.patterns if isinstance(pat, ast.MatchOr) else [pat]
+            if not all(isinstance(a, ast.MatchClass) and isinstance(a.cls, ast.Name) and a.cls.id in NUMBER_CLASSES
+                       and not a.patterns and not a.kwd_patterns for a in alts):
+                raise Unrecognised(f"case pattern {ast.unparse(case.pattern)}")
+            if {a.cls.id for a in alts} != NUMBER_CLASSES:
+                raise Unrecognised(f"case pattern {ast.unparse(case.pattern)}: not exactly int() | float()")
+            test = f"(Expr.call {B['isnumber']} {self.lst([loc])})"
+        pre = [f"(Stmt.assign {self.local(bind)} {loc})"] if bind else []
+        out = f"(Stmt.ite {test} {self.seq(pre + [body])} {out})"
+    return self.seq(p + [f"(Stmt.assign {subj} {e})", out])
+
+
+Tr.match = _match
+
+
 def find(tree: ast.Module, cls: str | None, method: str):
     scope = tree.body
     cls_node = None
@@ -532,6 +619,12 @@ def find(tree: ast.Module, cls: str | None, method: str):
         if cls_node is None:
             raise Unrecognised(f"no class {cls}")
         scope = cls_node.body
+    *outer, method = method.split(".")
+    for name in outer:      # nested function: `outer.inner`
+        encl = [n for n in scope if isinstance(n, (ast.FunctionDef, ast.AsyncFunctionDef)) and n.name == name]
+        if len(encl) != 1:
+            raise Unrecognised(f"{cls}.{name}: {len(encl)} definitions")
+        scope = encl[0].body
     fns = [n for n in scope if isinstance(n, (ast.FunctionDef, ast.AsyncFunctionDef)) and n.name == method
            and not any(isinstance(d, ast.Name) and d.id == "overload" for d in n.decorator_list)]
     if len(fns) != 1:
@@ -581,5 +674,23 @@ def translate(repo, t: Target) -> tuple[str, dict[str, int]]:
     if names != t.params:
         raise Unrecognised(f"{t.cls}.{t.method}: parameters {names} (expected {t.params})")
     tr = Tr(t, cls_node, fn)
-    term = tr.stmts(fn.body)
+    body = [x for x in fn.body if not (isinstance(x, ast.Expr) and isinstance(x.value, ast.Constant))]
+    if t.part == "loop_body":
+        # `<counter>: int = 0` then `while True: <body>` and nothing else; the counter is numbered right after the parameters
+        if not (len(body) == 2 and isinstance(body[0], (ast.Assign, ast.AnnAssign)) and isinstance(body[1], ast.While)):
+            raise Unrecognised(f"{t.method}: not `<counter> = 0; while True: …`")
+        init = body[0]
+        tg = init.target if isinstance(init, ast.AnnAssign) else (init.targets[0] if len(init.targets) == 1 else None)
+        if not (isinstance(tg, ast.Name) and isinstance(init.value, ast.Constant) and init.value.value == 0
+                and type(init.value.value) is int):
+            raise Unrecognised(f"{t.method}: the counter is not initialised with the literal 0")
+        w = body[1]
+        if not (isinstance(w.test, ast.Constant) and w.test.value is True) or w.orelse:
+            raise Unrecognised(f"{t.method}: loop other than `while True:`")
+        tr.local(tg.id)
+        term = tr.stmts(w.body)
+        locs = dict(tr.locals)
+        locs["$counter"] = tr.locals[tg.id]
+        return term, locs
+    term = tr.stmts(body)
     return term, dict(tr.locals)
